@@ -8,7 +8,7 @@ from props import solver_common as sc
 
 ID = 'C06'
 PROPS_FILE = 'Props/C06.v'
-MODEL_FILES = ['Solver/Solver.v', 'Solver/SolverF.v', 'Solver/SolveAll.v', 'Solver/SolveAllF.v']
+MODEL_FILES = ['Solver/Solver.v', 'Solver/SolverF.v', 'Solver/SolveAll.v', 'Solver/SolveAllSpan.v', 'Solver/SolveAllF.v']
 K_NAME = ('K_faults (Solver.solve_t_M / SolveAll.solve_M instantiated with PrimFloat vs BaseModel.solve_t / solve on scripted models '
           'and on parser-built models whose recorded per-pass columns are the script)')
 RULE = ('every placement of a fault kind {NaN, +inf, -inf, warning-raising statement, Python exception} at (statement 0..2, pass 1..4, '
@@ -41,6 +41,30 @@ def impl(case):
     return sc.impl_solve_t(case)
 
 
+def _raising_statement_target(exc, Base):
+    """Name of the variable assigned by the statement of the generated _evaluate in which `exc` was raised (None if it cannot be
+    told): the innermost traceback frame of the exec'd `_evaluate` gives the line, Base.CODE gives its text."""
+    import re
+    tb, hit = exc.__traceback__, None
+    while tb is not None:
+        co = tb.tb_frame.f_code
+        if co.co_name == '_evaluate' and co.co_filename == '<string>':
+            hit = (tb.tb_lineno, co.co_firstlineno)
+        tb = tb.tb_next
+    code = getattr(Base, 'CODE', None)
+    if hit is None or not isinstance(code, str):
+        return None
+    lines = code.splitlines()
+    defs = [i for i, ln in enumerate(lines) if ln.lstrip().startswith('def _evaluate(')]
+    if len(defs) != 1:
+        return None
+    i = defs[0] + (hit[0] - hit[1])
+    if not 0 <= i < len(lines):
+        return None
+    m = re.match(r'\s*self\._(\w+)\[t\]\s*=[^=]', lines[i])
+    return m.group(1) if m else None
+
+
 def impl_parsed(case):
     """A model built by the real parser whose equations produce the fault naturally.  The columns seen after every pass are
     recorded and become the script handed to the Coq model (the policy machine is what is under test)."""
@@ -48,7 +72,7 @@ def impl_parsed(case):
     import scripted
     symbols = fsic.parse_model(case['equations'])
     Base = fsic.build_model(symbols)
-    rec = {'evlog': [], 'passvecs': [], 'raised': [], 'cols': [], 'pre': []}
+    rec = {'evlog': [], 'passvecs': [], 'raised': [], 'cols': [], 'pre': [], 'where': []}
 
     class Rec(Base):
         def _col(self, t):
@@ -65,6 +89,7 @@ def impl_parsed(case):
                 super()._evaluate(t, errors=errors, catch_first_error=catch_first_error, iteration=iteration, **kwargs)
             except Exception as e:
                 rec['raised'].append(['pass', int(t), int(iteration), type(e).__name__])
+                rec['where'].append([int(iteration), _raising_statement_target(e, Base)])
                 raise
             finally:
                 rec['cols'].append(self._col(t))
@@ -103,7 +128,7 @@ def impl_parsed(case):
         'status': [str(x) for x in m.__dict__['_status']], 'iters': [int(x) for x in m.__dict__['_iterations']],
         'log': rec['evlog'], 'passvecs': [[lib.fhex(x) for x in v] for v in rec['passvecs']], 'raised': rec['raised'], 'blocked': [],
         'pre': [[lib.fhex(x) for x in v] for v in rec['pre']], 'cols': [[lib.fhex(x) for x in v] for v in rec['cols']],
-        'as_scripted': as_scripted, 'names': names,
+        'as_scripted': as_scripted, 'names': names, 'where': rec['where'],
     }
 
 
@@ -344,6 +369,9 @@ def oracle(case, obs):
     # the warnings filter: only errors='raise' together with catch_first_error turns a warning into an exception; under every
     # other policy ('skip' gives S and NO exception, 'ignore' / 'replace' keep iterating, 'raise' without catch_first_error
     # judges after the pass) a warning must never surface
+    if errors == 'raise' and o['catch_first_error'] and obs.get('warn_stored'):
+        bad('catch-first-stored', 'errors="raise" with catch_first_error: a statement that issued a warning went on and stored its result '
+            '(variable V%d at t=%d); the warning must stop the pass before the store' % tuple(obs['warn_stored'][0]))
     if not (errors == 'raise' and o['catch_first_error']):
         for r in obs['raised']:
             if r[3] == 'RuntimeWarning':
@@ -381,9 +409,15 @@ def oracle(case, obs):
                 if obs['vals'][var][p] != before:
                     bad('catch-first-stored', 'with catch_first_error the warning-raising statement must not store: cell V%d changed from %s to %s' % (var, before, obs['vals'][var][p]))
             if case.get('kind') == 'parsed' and errors == 'raise' and o['catch_first_error'] and cls == 'RuntimeWarning':
+                # the statement that warned is the one the traceback points at; the cell it assigns must hold what it held before
+                # the pass (earlier statements of the pass may well have stored, even non-finite values that raise no warning)
                 pre, post = obs['pre'][k - 1], obs['cols'][k - 1]
-                if any(np.isfinite(lib.unhex(a)) and not np.isfinite(lib.unhex(b)) for a, b in zip(pre, post)):
-                    bad('catch-first-stored', 'with catch_first_error the statement that warned stored a non-finite result: column before %s after %s' % (pre, post))
+                target = dict((w[0], w[1]) for w in obs.get('where', [])).get(k)
+                if target is not None and target in obs['names']:
+                    j = obs['names'].index(target)
+                    if pre[j] != post[j]:
+                        bad('catch-first-stored', 'with catch_first_error the statement that warned (%s[t] = ...) stored its result: %s before the '
+                            'pass, %s after' % (target, pre[j], post[j]))
             return fails
         if _fin(seq[k - 1]) and not _fin(seq[k]):
             # the first clause of the statement: non-finite after a finite previous pass / starting state
